@@ -691,6 +691,108 @@ theorem rows_normSq_pos (v : M3 K)
     simp only [M3.det, V3.dot, V3.cross]
     ring
 
+/-- Lagrange's identity. -/
+theorem lagrange (u v : V3 K) :
+    V3.normSq u * V3.normSq v - V3.dot u v * V3.dot u v = V3.normSq (V3.cross u v) := by
+  obtain ⟨a0, a1, a2⟩ := u
+  obtain ⟨a3, a4, a5⟩ := v
+  simp only [V3.normSq, V3.dot, V3.cross]
+  ring
+
+/-- two vectors that span a volume with a third one are not parallel. -/
+theorem cross_pos_of_triple (u v w : V3 K) (h : V3.dot (V3.cross u v) w ≠ 0) : 0 < V3.normSq (V3.cross u v) := by
+  obtain ⟨a0, a1, a2⟩ := u
+  obtain ⟨a3, a4, a5⟩ := v
+  obtain ⟨a6, a7, a8⟩ := w
+  simp only [V3.normSq, V3.dot, V3.cross] at *
+  by_contra hcon
+  have h0 := not_lt.mp hcon
+  have s1 := mul_self_nonneg (a1 * a5 - a2 * a4)
+  have s2 := mul_self_nonneg (a2 * a3 - a0 * a5)
+  have s3 := mul_self_nonneg (a0 * a4 - a1 * a3)
+  have z1 := mul_self_eq_zero.mp (show (a1 * a5 - a2 * a4) * (a1 * a5 - a2 * a4) = 0 by linarith)
+  have z2 := mul_self_eq_zero.mp (show (a2 * a3 - a0 * a5) * (a2 * a3 - a0 * a5) = 0 by linarith)
+  have z3 := mul_self_eq_zero.mp (show (a0 * a4 - a1 * a3) * (a0 * a4 - a1 * a3) = 0 by linarith)
+  apply h
+  rw [z1, z2, z3]; ring
+
+/-- strict Cauchy-Schwarz in the form `set_abc` needs it: the cosine `vect_angle` forms for two non-parallel vectors
+    is strictly between -1 and 1 (so the angle is strictly between 0 and 180 degrees and is not refused). -/
+theorem cos_strict (sqrt : K → K) (u v : V3 K) (hu : SqrtAt sqrt (V3.normSq u)) (hv : SqrtAt sqrt (V3.normSq v))
+    (hx : 0 < V3.normSq (V3.cross u v)) :
+    cosStrict (V3.dot u v / (sqrt (V3.normSq u) * sqrt (V3.normSq v))) = true := by
+  obtain ⟨hu2, hu0⟩ := hu
+  obtain ⟨hv2, hv0⟩ := hv
+  have hs : 0 < sqrt (V3.normSq u) * sqrt (V3.normSq v) := mul_pos hu0 hv0
+  have hl := lagrange u v
+  generalize sqrt (V3.normSq u) = su at *
+  generalize sqrt (V3.normSq v) = sv at *
+  generalize V3.dot u v = d at *
+  have hsq : d * d < (su * sv) * (su * sv) := by
+    have : (su * sv) * (su * sv) = V3.normSq u * V3.normSq v := by rw [← hu2, ← hv2]; ring
+    rw [this]; linarith
+  have h1 : d < su * sv := by
+    by_contra hc
+    have hle : su * sv ≤ d := not_lt.mp hc
+    have := mul_self_le_mul_self (le_of_lt hs) hle
+    linarith
+  have h2 : -(su * sv) < d := by
+    by_contra hc
+    have hle : d ≤ -(su * sv) := not_lt.mp hc
+    have hneg : su * sv ≤ -d := by linarith
+    have := mul_self_le_mul_self (le_of_lt hs) hneg
+    have e : -d * -d = d * d := by ring
+    linarith
+  have c1 : -1 < d / (su * sv) := by
+    rw [lt_div_iff₀ hs]; linarith
+  have c2 : d / (su * sv) < 1 := by
+    rw [div_lt_one hs]; exact h1
+  simp only [cosStrict, c1, c2, decide_true, Bool.and_self]
+
+/-- the converse: where `set_abc` accepts the angle between two vectors, they are not parallel (two parallel cell
+    vectors — an exactly singular cell — are refused). -/
+theorem cross_pos_of_cos_strict (sqrt : K → K) (u v : V3 K) (hu : SqrtAt sqrt (V3.normSq u))
+    (hv : SqrtAt sqrt (V3.normSq v))
+    (h : cosStrict (V3.dot u v / (sqrt (V3.normSq u) * sqrt (V3.normSq v))) = true) :
+    0 < V3.normSq (V3.cross u v) := by
+  obtain ⟨hu2, hu0⟩ := hu
+  obtain ⟨hv2, hv0⟩ := hv
+  have hs : 0 < sqrt (V3.normSq u) * sqrt (V3.normSq v) := mul_pos hu0 hv0
+  have hl := lagrange u v
+  simp only [cosStrict, Bool.and_eq_true, decide_eq_true_eq] at h
+  obtain ⟨c1, c2⟩ := h
+  rw [lt_div_iff₀ hs] at c1
+  rw [div_lt_one hs] at c2
+  generalize sqrt (V3.normSq u) = su at *
+  generalize sqrt (V3.normSq v) = sv at *
+  generalize V3.dot u v = d at *
+  have e : V3.normSq u * V3.normSq v = (su * sv) * (su * sv) := by rw [← hu2, ← hv2]; ring
+  have hp : 0 < (su * sv - d) * (su * sv + d) := mul_pos (by linarith) (by linarith)
+  rw [← hl, e]
+  linarith
+
+/-- **angleGuard_of_det_ne_zero**: the lattice angles of a non-singular cell pass the check of `set_abc`. -/
+theorem angleGuard_of_det_ne_zero (sqrt : K → K) (v : M3 K) (hdet : M3.det v ≠ 0)
+    (ha : SqrtAt sqrt (V3.normSq v.r0)) (hb : SqrtAt sqrt (V3.normSq v.r1)) (hc : SqrtAt sqrt (V3.normSq v.r2)) :
+    angleGuard sqrt v = true := by
+  have h01 : 0 < V3.normSq (V3.cross v.r0 v.r1) := normSq_cross_pos v hdet
+  have h12 : 0 < V3.normSq (V3.cross v.r1 v.r2) := by
+    apply cross_pos_of_triple v.r1 v.r2 v.r0
+    intro h; apply hdet
+    obtain ⟨⟨a0, a1, a2⟩, ⟨a3, a4, a5⟩, ⟨a6, a7, a8⟩⟩ := v
+    simp only [M3.det, V3.dot, V3.cross] at *
+    linear_combination h
+  have h02 : 0 < V3.normSq (V3.cross v.r0 v.r2) := by
+    apply cross_pos_of_triple v.r0 v.r2 v.r1
+    intro h; apply hdet
+    obtain ⟨⟨a0, a1, a2⟩, ⟨a3, a4, a5⟩, ⟨a6, a7, a8⟩⟩ := v
+    simp only [M3.det, V3.dot, V3.cross] at *
+    linear_combination -h
+  have g1 := cos_strict sqrt v.r1 v.r2 hb hc h12
+  have g2 := cos_strict sqrt v.r0 v.r2 ha hc h02
+  have g3 := cos_strict sqrt v.r0 v.r1 ha hb h01
+  simp only [angleGuard, cosAlpha, cosBeta, cosGamma, lenA, lenB, lenC, g1, g2, g3, Bool.and_self]
+
 end misc
 
 end Atomman.C05
